@@ -1,0 +1,88 @@
+//go:build verif
+
+package asp
+
+import (
+	"bytes"
+	"fmt"
+	"runtime"
+)
+
+// VerifToken is one token of the real lexer as seen by the C19 correspondence harness.
+type VerifToken struct {
+	Type  int
+	Value string
+	Pos   int
+}
+
+// VerifOutcome classifies how lexing/parsing ended.
+//
+//	Class "ok"         no error
+//	Class "positioned" an *errorStack with at least one frame (Offset is the 0-based byte offset, Line/Column as reported)
+//	Class "runtime"    a runtime.Error (index out of range, nil dereference, ...)
+//	Class "error"      some other error value without position
+//	Class "panic"      a panic whose value is not an error
+type VerifOutcome struct {
+	Class   string
+	Offset  int
+	Line    int
+	Column  int
+	Frames  int
+	Message string
+}
+
+func classifyForVerif(v interface{}) VerifOutcome {
+	switch e := v.(type) {
+	case nil:
+		return VerifOutcome{Class: "ok"}
+	case *errorStack:
+		if len(e.Stack) == 0 {
+			return VerifOutcome{Class: "error", Message: e.ShortError()}
+		}
+		return VerifOutcome{Class: "positioned", Offset: e.Stack[0].Offset - 1, Line: e.Stack[0].Line, Column: e.Stack[0].Column, Frames: len(e.Stack), Message: e.ShortError()}
+	case runtime.Error:
+		return VerifOutcome{Class: "runtime", Message: e.Error()}
+	case error:
+		return VerifOutcome{Class: "error", Message: e.Error()}
+	default:
+		return VerifOutcome{Class: "panic", Message: fmt.Sprint(v)}
+	}
+}
+
+// LexForVerif runs the real lexer exactly as the parser drives it (newLexer, then Next until the first EOF
+// token has been returned) and reports the tokens produced before it stopped and how it stopped.
+// limit bounds the number of tokens (0 = no limit).
+func LexForVerif(data []byte, filename string, limit int) (toks []VerifToken, out VerifOutcome) {
+	defer func() {
+		if r := recover(); r != nil {
+			out = classifyForVerif(r)
+		}
+	}()
+	l := newLexer(&namedReader{r: bytes.NewReader(data), name: filename})
+	for limit == 0 || len(toks) < limit {
+		t := l.Next()
+		toks = append(toks, VerifToken{Type: int(t.Type), Value: t.Value, Pos: int(t.Pos)})
+		if t.Type == EOF {
+			break
+		}
+	}
+	return toks, VerifOutcome{Class: "ok"}
+}
+
+// ParseForVerif runs Parser.ParseData (no interpreter) and classifies the result; a panic that escapes
+// parseFileInput's recovery is caught here and classified too (Escaped = true).
+func ParseForVerif(data []byte, filename string) (nstmts int, out VerifOutcome, escaped bool, rendered string) {
+	defer func() {
+		if r := recover(); r != nil {
+			out = classifyForVerif(r)
+			escaped = true
+		}
+	}()
+	stmts, err := newParser().ParseData(data, filename)
+	if err == nil {
+		return len(stmts), VerifOutcome{Class: "ok"}, false, ""
+	}
+	out = classifyForVerif(err)
+	rendered = err.Error() // rendering the message must not panic either
+	return len(stmts), out, false, rendered
+}
